@@ -1,6 +1,7 @@
 package main
 
 import (
+	"os"
 	"fmt"
 	"go/token"
 	"go/types"
@@ -409,6 +410,10 @@ func (x *Exec) safety(fr *Frame, kind, snippet string, st *State, goal Term, pos
 		return
 	}
 	x.oblige(fr, kind, snippet, st, goal, pos)
+	// execution continues only if the check passed
+	if goal.S != "true" && os.Getenv("GOCV_NOSAFEASSUME") == "" {
+		st.reach = and(st.reach, goal)
+	}
 }
 
 func (x *Exec) derefCheck(fr *Frame, st *State, lv *LVal, pos token.Pos, what string) {
@@ -425,6 +430,9 @@ func (x *Exec) derefCheck(fr *Frame, st *State, lv *LVal, pos token.Pos, what st
 		return // fresh allocations are never nil
 	}
 	x.oblige(fr, "nilderef", what, st, not(eq(lv.ptr, intLit(0))), pos)
+	if os.Getenv("GOCV_NOSAFEASSUME") == "" {
+		st.reach = and(st.reach, not(eq(lv.ptr, intLit(0))))
+	}
 }
 
 func (x *Exec) binop(fr *Frame, st *State, in *ssa.BinOp) Term {
